@@ -630,8 +630,9 @@ def run(ctx, out):
     probe = None
     for key, lst in ex.failures.items():
         desc, model, extra = lst[0]
-        if probe is None or 'termination' in key:
-            probe = native_probe(ctx.tree, (model or {}).get('status') if 'termination' in key else None)
+        st = (model or {}).get('status')
+        if probe is None or st:
+            probe = native_probe(ctx.tree, st)
         k = key.split(':')[1] if ':' in key else key
         nk = NATIVE_KEYS.get(k)
         confirmed = nk in probe if nk else False
